@@ -59,6 +59,16 @@ def outcomes(fn, s, action, max_runs=5000):
     return out, explore.capped
 
 
+def blamed(names, relevant, s, action):
+    """an exception in a chain is attributed to the functions `relevant` to a property only if the chain restricted
+    to those functions still raises (other exceptions are totality failures decided by C01)"""
+    sub = tuple(n for n in names if n in relevant)
+    if not sub:
+        return False
+    outs, _ = outcomes(chain_fn(sub), s, action, max_runs=64)
+    return any(is_exc(r) for _, r in outs)
+
+
 def is_exc(res):
     return isinstance(res, tuple) and len(res) == 3 and res[0] == 'EXC'
 
@@ -83,7 +93,7 @@ def sweep(plan, worker_fn, nshards=64):
     for entry in plan:
         n = U.count_grids(entry['shape'], len(SIGMAS[entry['sigma']]), entry['k'])
         work = (n * entry['shape'][0] * entry['shape'][1] * 4 * len(HELDS[entry['held']])
-                * len(entry['chains']) * len(entry['actions']))
+                * len(entry['chains']) * len(entry['actions'])) * entry.get('cost', 1)
         parts = max(1, min(n, work // 60000 + 1))
         for i in range(parts):
             jobs.append((entry, i, parts))
@@ -236,10 +246,10 @@ def front_class(s):
     return 'inside' if R.inside(s[0], R.front(s[1], s[2], s[3])) else 'outside'
 
 
-def run_reach(rep, names, init_limit, max_states, make_hooks, replay, invariant, group_cap=None):
+def run_reach(rep, names, init_limit, max_states, make_hooks, replay, invariant, group_cap=None, lineages=1):
     from . import reach
 
-    stats, problems = reach.explore_configs(names, init_limit, max_states, make_hooks, group_cap=group_cap)
+    stats, problems = reach.explore_configs(names, init_limit, max_states, make_hooks, group_cap=group_cap, lineages=lineages)
     rs = rt = 0
     for name, s in stats.items():
         rs += s['states']
@@ -247,7 +257,7 @@ def run_reach(rep, names, init_limit, max_states, make_hooks, replay, invariant,
         if s['capped'] or not s.get('complete'):
             how = 'all reset outcomes' if s.get('complete') else f"reset outcomes with <={s.get('dev_bound')} non-default draws"
             rep.cap(f"{name}: {how}{', state/group cap hit' if s['capped'] else ''}")
-    rep.part('reachable', configs=stats, states=rs, transitions=rt)
+    rep.part('reachable', configs=stats, states=rs, transitions=rt, lineages_expanded_per_state=lineages)
     seen_sig = {}
     for p in problems:
         case = dict(p, kind='reach', sig={'config': p['config'], 'invariant': invariant})
